@@ -99,6 +99,9 @@ def from_xir(xir_prog: xir.Program) -> Program:
             else:
                 raise NameError(f"Quantum operation {op.name!r} not defined!")
 
+            if op.is_inverse:
+                gate = _inverse(gate)
+
             # create the list of regrefs
             regrefs = [q[i] for i in op.wires]
 
@@ -180,6 +183,9 @@ def from_xir_to_tdm(xir_prog: xir.Program) -> TDMProgram:
                 gate = getattr(ops, op.name)
             else:
                 raise NameError(f"Quantum operation {op.name!r} not defined!")
+
+            if op.is_inverse:
+                gate = _inverse(gate)
 
             # create the list of regrefs
             regrefs = [q[int(i)] for i in op.wires]
@@ -316,10 +322,16 @@ def to_xir(prog: Program, **kwargs) -> xir.Program:
                     a = _listr(a)
                 params.append(a)
 
-        op = xir.Statement(name, params, wires)
+        # inverted gates are written with the XIR ``inv`` modifier
+        op = xir.Statement(name, params, wires, inverse=bool(getattr(cmd.op, "dagger", False)))
         xir_prog.add_statement(op)
 
     return xir_prog
+
+
+def _inverse(gate):
+    """Returns a constructor building the inverse (``.H``) of what ``gate`` builds."""
+    return lambda *args, **kwargs: gate(*args, **kwargs).H
 
 
 def _listr(mixed_iterable: Iterable) -> List:
